@@ -26,10 +26,10 @@ K_MODULE, K_CLASS, K_METHOD, K_FUNCTION, K_VARIABLE, K_INTERFACE = 2, 5, 6, 12, 
 # ------------------------------------------------------------------ tree model
 # node = (kind, [children]);  kinds:
 UNITS = ("MOD", "PROG", "ESUB", "EFUN", "SMOD")
-CONSTRUCTS = ("BLOCK", "DO", "NDO", "LDO", "IF", "SELC", "SELT", "ASSOC", "WHERE")
+CONSTRUCTS = ("BLOCK", "DO", "NDO", "LDO", "LDE", "IF", "SELC", "SELT", "ASSOC", "WHERE")
 
 
-NESTABLE = ("BLOCK", "DO", "NDO", "LDO", "IF", "ASSOC")
+NESTABLE = ("BLOCK", "DO", "NDO", "LDO", "LDE", "IF", "ASSOC")
 
 
 def gen_constructs(budget, depth):
@@ -189,13 +189,15 @@ def render_constructs(r: R, depth, nodes):
                 r.lines.append(("" if r.spacing == 1 else "  " * depth) + f"end do {nm}")
             else:
                 r.end(depth, "do", None, need_kw=True)
-        elif kind == "LDO":
+        elif kind in ("LDO", "LDE"):
+            # labels are local to a program unit / procedure: they restart in each (render_proc), so the same label
+            # occurs several times in one file; LDE: the label-terminated DO ends with a labelled END DO
             r.label += 10
             lab = r.label
             r.add(depth, f"do {lab} i = 1, 3")
             r.add(depth + 1, "k = k + i")
             render_constructs(r, depth + 1, ch)
-            r.lines.append(f"{lab} continue")
+            r.lines.append(f"{lab} continue" if kind == "LDO" else f"{lab} end do")
         elif kind == "IF":
             r.add(depth, "if (k > 0) then")
             r.add(depth + 1, "k = 1")
@@ -235,6 +237,7 @@ def render_proc(r: R, depth, kind, ch, container, listed, mod_prefix=""):
     """kind in SUB FUN ISUB IFUN ESUB EFUN; returns name"""
     fun = kind.endswith("FUN")
     nm = r.name("fn" if fun else "sb")
+    saved_label, r.label = r.label, 100
     head = f"{mod_prefix}function {nm}(x) result(res)" if fun else f"{mod_prefix}subroutine {nm}(x)"
     s = r.add(depth, head)
     r.add(depth + 1, "integer :: x, i, k")
@@ -254,6 +257,7 @@ def render_proc(r: R, depth, kind, ch, container, listed, mod_prefix=""):
         for k, c in ints:
             render_proc(r, depth + 1, k, c, nm, listed=False)
     e = r.end(depth, "function" if fun else "subroutine", nm)
+    r.label = saved_label
     if listed:
         r.expected.append((nm, K_FUNCTION, container, s, e))
     return nm
@@ -563,7 +567,8 @@ def nesting_pairs():
     for outer in NESTABLE:
         for inner in CONSTRUCTS:
             for third in ((), (("DO", ()),)):
-                units = (("MOD", (("SUB", ((outer, ((inner, ()),) + third),)), ("FUN", ()))),)
+                # (the sibling procedure repeats the outer construct: labels restart per procedure)
+                units = (("MOD", (("SUB", ((outer, ((inner, ()),) + third),)), ("FUN", ((outer, ()),)))),)
                 for ef in range(END_FORMS):
                     for sp in range(SPACINGS):
                         yield (units, ef, sp)
@@ -595,7 +600,7 @@ def main(ctx):
     acc = core.pmap(check_file, jobs(budget), chunk=16, budget_s=120, label="C04")
     ctx.add_family("outline+workspace_symbol", acc, node_budget=budget)
     nacc = core.pmap(check_file, nesting_pairs(), chunk=16, budget_s=120, label="C04/nesting")
-    ctx.add_family("nesting_pairs", nacc, what="6 nestable constructs (BLOCK, DO, named DO, label-terminated DO, IF, ASSOCIATE) around each of the 9 "
+    ctx.add_family("nesting_pairs", nacc, what="7 nestable constructs (BLOCK, DO, named DO, label-terminated DO ending in CONTINUE / in a labelled END DO, IF, ASSOCIATE) around each of the 10 "
                    "constructs (optionally followed by a plain DO), in the first of two sibling module procedures, 15 renderings")
     sacc = core.pmap(collision_case, sorted(_collision_programs()), chunk=1, budget_s=60, label="C04/same_names")
     ctx.add_family("same_names", sacc, what="distinct entities of one file that legally share a name (constructor idiom, generic named "
